@@ -135,6 +135,26 @@ def h_canon_steps(ctx, width, keys, steps, via_map=False):
         check('after ' + st[0])
 
 
+def h_canon_addr(ctx, n=1):
+    """maps keyed by Address objects (267-bit keys: addr_std$10 no anycast, workchain int8, account id): the cell equals the
+    reference encoding over the TL-B bits of the addresses - for every workchain, negative ones included"""
+    from pytoniq_core.boc import Address
+    items, hm = [], HashMap(267).with_uint_values(8)
+    for i in range(n):
+        # (the workchain byte is the symbolic window of the 267-bit key; a fully symbolic key costs a fork per key bit)
+        wc, acc, v = ctx.sint(f'wc{i}', 8), bytes((37 * j + 11 + i) & 0xff for j in range(32)), ctx.uint(f'v{i}', 8)
+        if i:
+            pass
+        hm.set(Address((wc, acc)), v)
+        items.append((enc_addr_std(wc, acc), v, wc, acc))
+    cell = hm.serialize()
+    spec = warm(D.encode(D.build([(k, v) for k, v, _, _ in items]), 267, lambda v: (enc_uint(v, 8), [])))
+    ctx.require(cell.hash == cell_hash(spec, 3), 'address keys: hash equals the reference hash over the TL-B bits of the addresses')
+
+
+h_canon_addr.symkeys = True
+
+
 def h_canon_symkeys(ctx, width, nk, win=None, pos=0):
     """canonical structure with symbolic keys: the specification forks on the same key relations"""
     keys = []
@@ -341,6 +361,7 @@ def instances(tier, seed):
                    [top >> 1, top >> 2, top >> 3]) + \
                 (([int(('10' * width)[:width], 2), int(('01' * width)[:width], 2)],) if width <= 267 else ()):
             yield 'h_canon', dict(width=width, keys=ks)
+    yield 'h_canon_addr', dict(n=1)
     for via_map in (False, True):
         for keys, steps in (([5, 200], [['int', 77]]), ([5, 200], [['owner', 77]]), ([1, 4, 6], [['del', 4]]), ([3], [['owner', 3], ['del', 3], ['int', 9]]),
                             ([0, 255], [['int', 0], ['owner', 128], ['del', 255]])):
